@@ -177,6 +177,10 @@ func listOp(cur *value.Array, op obj) (obj, *value.Array) {
 			if err != nil {
 				return errRes(err)
 			}
+			// the reversed list is a list of its own, whatever the length of the receiver
+			if a, ok := e.(*value.Array); ok && op["p"].(string) == "逆序" {
+				lastProduced = a
+			}
 			return okRes(e)
 		case "setp":
 			if err := value.NewMemberIV(cur, op["p"].(string)).ReduceLHS(elemOf(op["v"])); err != nil {
